@@ -525,11 +525,16 @@ def corr_bnaf_stacks(c, tier, rng):
     bt.run("flows-bnaf-stack-model-vs-impl")
 
 
-def tri_make_layer(key, dim, cd, knots, tanh_max_val):
-    """`triangular_spline_flow.make_layer`, statement by statement, outside filter_vmap"""
-    from equinox.nn import Linear
+def tri_make_layer(key, dim, cd, knots, tanh_max_val, init=None, cond_weight=None):
+    """`triangular_spline_flow.make_layer`, statement by statement, outside filter_vmap.  `init`: the factory's `init`
+    argument (default glorot_uniform()); `cond_weight`: what another `cond_key` would have drawn for the `Linear` weight."""
+    from equinox.nn import Linear as _Linear
     from jax.nn.initializers import glorot_uniform
-    init = glorot_uniform()
+    init = init if init is not None else glorot_uniform()
+
+    def Linear(*a, **kw):
+        lin = _Linear(*a, **kw)
+        return lin if cond_weight is None else eqx.tree_at(lambda l: l.weight, lin, jnp.asarray(cond_weight, lin.weight.dtype))
     lt_key, perm_key, cond_key = jr.split(key, 3)
     weights = init(lt_key, (dim, dim))
     lt_weights = weights.at[jnp.diag_indices(dim)].set(1)
@@ -606,8 +611,80 @@ def corr_trispline_stacks(c, tier, rng, methods=METHODS):
     bt.run("flows-trispline-stack-model-vs-impl")
 
 
+def corr_gen_trispline(c, tier, rng, methods=METHODS):
+    """the GENERATED `triangular_spline_flow.make_layer` / `get_splines` (driver kind `gentrispline`: `Gen/Flows.lean`
+    `triangular_spline_flow.bijection_gen`, the layer AS CONSTRUCTED from what its three keys determine) against real layers built
+    statement by statement as `make_layer` does (`tri_make_layer`; the factory itself is not constructible here) and stacked
+    into the real `Scan`: the key-determined parameters are perturbed — `init` returns an arbitrary matrix (both signs, non-unit
+    diagonal that `.set(1)` must overwrite; every other layer the default glorot_uniform draw), the `Linear` weight is an
+    arbitrary matrix, the permutation is the real `jr.permutation` draw; dims 1–4, knots 2–8, conditional and not, both
+    orientations, the four bijection methods + log_prob / sample / sample_and_log_prob."""
+    bt = Batch(c)
+    cfgs = [(1, None, 2, 2, 3.0), (2, 2, 2, 5, 1.5), (3, None, 3, 8, 3.0), (4, 1, 2, 3, 2.0), (3, 2, 1, 4, 0.7), (4, None, 2, 6, 3.0)]
+    if tier != "quick":
+        more = [(d, cd, nl, k, m) for d in (1, 2, 3, 4) for cd in (None, 1, 3) for nl in (1, 2, 4) for k in (2, 3, 5, 8) for m in (0.7, 3.0)]
+        rng.shuffle(more)
+        cfgs += more[:30]
+    for ci, (dim, cd, nl, knots, mv) in enumerate(cfgs):
+        info = dict(stack="generated triangular_spline make_layer", dim=dim, cond_dim=cd, flow_layers=nl, knots=knots, tanh_max_val=mv)
+        keys = jr.split(jr.PRNGKey(rng.randrange(10 ** 6)), nl)
+        try:
+            layers, Ws = [], []
+            for li, k in enumerate(keys):
+                W = None if li % 2 == 1 else [[rng.choice((-1, 1)) * rng.uniform(0.2, 2.5) for _ in range(dim)] for _ in range(dim)]
+                Cw = None if cd is None else [[rng.uniform(-1.5, 1.5) for _ in range(cd)] for _ in range(dim)]
+                init = None if W is None else (lambda key, shape, W=W: jnp.asarray(W).reshape(shape))
+                Ws.append(W)
+                layers.append(tri_make_layer(k, dim, cd, knots, mv, init=init, cond_weight=Cw))
+            scan = B.Scan(stack_layers(layers))
+        except Exception as ex:
+            c.mismatch("flows-gen-trispline-constructs", exc=repr(ex)[:200], **info)
+            continue
+        toks = [f2b(mv), str(knots)]
+        ok = True
+        for li, (layer, k) in enumerate(zip(fj.unstack_scan(scan), keys)):
+            sp = split_layer(c, layer, dim, dict(layer=li, **info))
+            if sp is None:
+                ok = False
+                break
+            # what the three keys determine, recomputed from the keys / read back from the stored (NOT unwrapped) leaves
+            lt_key, perm_key, cond_key = jr.split(k, 3)
+            if Ws[li] is None:
+                from jax.nn.initializers import glorot_uniform
+                Wd = np.asarray(glorot_uniform()(lt_key, (dim, dim)))
+            else:
+                Wd = np.asarray(Ws[li])                                  # what `init` returned (non-unit diagonal: `.set(1)` is the model's job)
+            cw = fs2b(np.ravel(np.asarray(sp[0][4].module.weight))) if cd is not None else "-"
+            toks += [sp[1], fs2b(np.ravel(Wd)), cw]
+        c.count(f"flows:gen-trispline:dim{dim}:knots{knots}:{'cond' if cd is not None else 'uncond'}")
+        if not ok:
+            c.mismatch("flows-structure:hand-built triangular-spline stack (generated make_layer)", **info)
+            continue
+        base = StandardNormal((dim,))
+        for inv in (True, False):
+            bij = B.Invert(scan) if inv else scan
+            fl = Transformed(base, bij)
+            x = [rng.uniform(-1.5, 1.5) for _ in range(dim)]
+            cond = None if cd is None else jnp.asarray([rng.uniform(-1, 1) for _ in range(cd)])
+            key = jr.PRNGKey(rng.randrange(2 ** 31))
+            z = [float(v) for v in np.asarray(base.sample(key))]
+            for m in methods:
+                arg = z if m in ("s", "slp") else x
+                want = real_values(fl, bij, m, arg, cond, key)
+                if isinstance(want, list) and not well_conditioned(want):
+                    c.count("flows:gen-trispline: overflow, not compared")
+                    continue
+                line = (f"flow run gentrispline {m} {1 if inv else 0} {dim} {-1 if cd is None else cd} {fs2b(arg)} "
+                        f"{fs2b(np.asarray(cond)) if cond is not None else '-'} {nl} " + " ".join(toks))
+                bt.add(line, want, dict(method=m, invert=inv, x=arg, **info), dict(rtol=1e-7, atol=1e-8))
+                c.case(("gen-trispline", ci, inv, m), True)
+                c.count(f"flows:gen-trispline:method:{m}")
+        jax.clear_caches()
+    bt.run("flows-gen-trispline-make_layer-vs-impl")
+
+
 # ------------------------------------------------------------------ entry points
-def corr_flows(c, tier, rng, parts=("helpers", "factories", "bnaf", "trispline"), methods=METHODS, trispline_methods=None):
+def corr_flows(c, tier, rng, parts=("helpers", "factories", "bnaf", "trispline", "gentrispline"), methods=METHODS, trispline_methods=None):
     """`methods`: which public methods of the flow are compared (C01: the four bijection methods; C03: log_prob, sample,
     sample_and_log_prob; C08: the forward pass of the Scan) — the structural checks always run.
     `trispline_methods`: the methods compared on the hand-built triangular-spline stacks (default: `methods`).  In the quick
@@ -623,6 +700,8 @@ def corr_flows(c, tier, rng, parts=("helpers", "factories", "bnaf", "trispline")
         corr_bnaf_stacks(c, tier, rng)
     if "trispline" in parts:
         corr_trispline_stacks(c, tier, rng, trispline_methods or methods)
+    if "gentrispline" in parts:
+        corr_gen_trispline(c, tier, rng, trispline_methods or methods)
 
 
 # ------------------------------------------------------------------ oracle on the real code (no model)
